@@ -63,12 +63,12 @@ def _plain_of(leaf):
     return val[0] if len(val) == 1 else list(val)
 
 
-def build(ast, cat, rng, stats, force=None):
-    """-> (tree, typed input, plain input or None, expected get())"""
+def build(ast, cat, rng, stats, force=None, prefer=None):
+    """-> (tree, typed input, plain input or None, expected get()). `prefer`: a format every item that allows it takes (one element)."""
     if ast[0] == "item":
         info = cat[ast[1]]
         fmts = info["fmts"]
-        fmt = force or rng.choice(fmts)
+        fmt = force or (prefer if prefer in fmts else rng.choice(fmts))
         stats.add((ast[1], fmt))
         if fmt == "L":
             kids = [gen.leaf(rng, rng.choice(["U4", "A", "B", "I2", "F8"]), n=rng.choice([1, 2])) for _ in range(rng.randint(0, 3))]
@@ -80,22 +80,34 @@ def build(ast, cat, rng, stats, force=None):
             n = rng.choice(sorted({0, 1, max(0, count - 1), count}))
         else:
             n = rng.choice([0, 1, 1, 1, 2, 5])
+        if prefer is not None and fmt == prefer and (count <= 0 or count >= 1):
+            n = 1
         leaf = gen.leaf(rng, fmt, n=n)
         inp = sv.leaf_input(leaf)[0]
         typed = sv.VCLS[fmt](inp) if info["dynamic"] else inp
         plain = _plain_of(leaf) if n >= 1 else None
+        if plain is not None and fmt == "F8" and n == 1 and ast[1] in KNOWN_F4_BEFORE_F8:
+            import struct
+            try:
+                exact = struct.unpack(">f", struct.pack(">f", leaf[1][0]))[0] == leaf[1][0]
+            except OverflowError:
+                exact = True      # outside the binary32 range: F4 cannot be chosen
+            if not exact:
+                _RISKY_PLAIN_FLOATS.add(struct.pack(">d", leaf[1][0]))
         if info["dynamic"] and fmt == "B" and any(f in ("A", "J") for f in fmts):
             plain = None  # plain bytes are ambiguous for an item that allows both text and binary (text wins by design)
+        if info["dynamic"] and n > 1 and "L" in fmts and fmt not in ("A", "J", "B"):
+            plain = None  # a plain Python list is ambiguous for an item that also allows a list (the list wins by design)
         return leaf, typed, plain, sv.expected_get(leaf)
     _, name, members = ast
     if len(members) == 1:
         k = rng.choice([0, 1, 2, 2, 7]) if rng.random() < 0.97 else 256
         if k == 256 and members[0][0] != "item":
             k = 7
-        built = [build(members[0], cat, rng, stats) for _ in range(k)]
+        built = [build(members[0], cat, rng, stats, prefer=prefer) for _ in range(k)]
         plain = [b[2] for b in built] if all(b[2] is not None for b in built) else None
         return ("L", [b[0] for b in built]), [b[1] for b in built], plain, [b[3] for b in built]
-    built = [build(m, cat, rng, stats) for m in members]
+    built = [build(m, cat, rng, stats, prefer=prefer) for m in members]
     keys = [doc_key(m) for m in members]
     as_dict = rng.random() < 0.6
     typed = {k: b[1] for k, b in zip(keys, built)} if as_dict else [b[1] for b in built]
@@ -113,6 +125,50 @@ def _message(S, F, W, body, system=1, dev=0):
 
 def _f4_lenient(a, b):
     return sv.same_value(a, b, f4=True)
+
+
+# Known finding (known_findings.json, C03 plain-float-sent-as-F4-although-F8-is-allowed): the data items whose allowed types
+# list F4 before F8 on the tree the finding was recorded on. Pinned here: an item that starts to behave like this later is new.
+KNOWN_F4_BEFORE_F8 = frozenset({"ATTRDATA", "CEPVAL", "DVVAL", "LIMITMAX", "LIMITMIN", "LOWERDB", "SV", "UPPERDB", "V", "XDIES", "YDIES"})
+_RISKY_PLAIN_FLOATS: set = set()      # bit patterns of the plain floats built for those items (single element, not exact in binary32)
+
+
+def _differing_leaves(got, expected):
+    """[(got leaf, expected leaf)] for every unequal leaf of two equally shaped values, None if the shapes differ."""
+    if isinstance(got, dict) and isinstance(expected, dict):
+        if list(got.keys()) != list(expected.keys()):
+            return None
+        got, expected = list(got.values()), list(expected.values())
+    if isinstance(got, (list, tuple)) and isinstance(expected, (list, tuple)):
+        if len(got) != len(expected):
+            return None
+        out = []
+        for g, e in zip(got, expected):
+            d = _differing_leaves(g, e)
+            if d is None:
+                return None
+            out += d
+        return out
+    if isinstance(got, (dict, list, tuple)) or isinstance(expected, (dict, list, tuple)):
+        return None
+    return [] if sv.same_value(got, expected) else [(got, expected)]
+
+
+def _only_the_known_f4_rounding(got, expected):
+    import struct
+
+    diff = _differing_leaves(got, expected)
+    if not diff:
+        return False
+    for g, e in diff:
+        if not (isinstance(g, float) and isinstance(e, float) and struct.pack(">d", e) in _RISKY_PLAIN_FLOATS):
+            return False
+        try:
+            if struct.pack(">f", g) != struct.pack(">f", e):
+                return False
+        except OverflowError:
+            return False
+    return True
 
 
 def _typed_case(ctx, cls, SF, tree, typed, expected, label):
@@ -157,7 +213,7 @@ def _plain_case(ctx, cls, SF, plain, expected, label):
     ctx.count("oracle.plain_roundtrip")
     try:
         got = obj.get()
-        if not _f4_lenient(got, expected):
+        if not sv.same_value(got, expected):
             ctx.violation("plain-value-not-read-back", {**wit, "got": got, "expected": expected})
             return
         body = obj.encode()
@@ -167,8 +223,13 @@ def _plain_case(ctx, cls, SF, plain, expected, label):
             ctx.violation("lookup-by-SF-gives-other-class", {**wit, "got": type(dec).__name__})
             return
         got2 = dec.get()
-        if not _f4_lenient(got2, expected):
-            ctx.violation("plain-value-differs-after-roundtrip", {**wit, "got": got2, "expected": expected, "body": body[:100]})
+        # exact: a plain float chosen for an F4 leaf is exactly representable in single precision, one chosen for an F8 leaf belongs
+        # to an item that allows F8 - in both cases a format exists that carries the value unchanged
+        if not sv.same_value(got2, expected):
+            if _only_the_known_f4_rounding(got2, expected):
+                ctx.violation("plain-float-sent-as-F4-although-F8-is-allowed", {**wit, "got": got2, "expected": expected, "body": body[:100]})
+            else:
+                ctx.violation("plain-value-differs-after-roundtrip", {**wit, "got": got2, "expected": expected, "body": body[:100]})
         if dec.encode() != body:
             ctx.violation("reencode-differs", {**wit})
     except Exception as exc:
@@ -206,6 +267,24 @@ def _catalogue_consistency(ctx):
             for k, v in flags.items():
                 if bool(yv.get(k)) != bool(v):
                     ctx.violation("flag-differs-from-yaml", {"function": label, "flag": k, "python": v, "yaml": yv.get(k)})
+            # the public attributes of a function object (what the protocols read, e.g. to set the W-bit) say the same
+            try:
+                obj = c()
+            except Exception as exc:
+                obj = None
+                ctx.violation("catalogued-function-not-constructible-without-value", {"function": label, "error": repr(exc)[:200]})
+            public = {"to_host": "to_host", "to_equipment": "to_equipment", "reply": "has_reply", "reply_required": "is_reply_required",
+                      "multi_block": "is_multi_block"}
+            for k, attr in public.items():
+                for holder, what in ((obj, "object"), (c, "class")):
+                    if holder is None or not hasattr(holder, attr):
+                        continue
+                    v = getattr(holder, attr)
+                    if isinstance(v, property) or callable(v):
+                        continue
+                    ctx.count("catalogue.public_flags_checked")
+                    if bool(yv.get(k)) != bool(v):
+                        ctx.violation("public-flag-differs-from-yaml", {"function": label, "attribute": attr, "on": what, "python": v, "yaml": yv.get(k)})
             ystruct = yv.get("structure")
             pstruct = c._data_format
             norm = (lambda t: " ".join(t.split()) if isinstance(t, str) else t)
@@ -269,7 +348,7 @@ def run(ctx):
     _catalogue_isolation(ctx)   # before the round trips: they use a fresh default container
     cat = _items_catalogue()
     SF = StreamsFunctions()
-    per_fn = 60 if ctx.quick else 12000
+    per_fn = 240 if ctx.quick else 12000
     stats = set()
     fns = sorted(secs_streams_functions, key=lambda c: (c.stream, c.function))
     for i, cls in enumerate(fns):
@@ -293,6 +372,12 @@ def run(ctx):
             _typed_case(ctx, cls, SF, tree, typed, expected, label)
             if plain is not None and rep % 2 == 0:
                 _plain_case(ctx, cls, SF, plain, expected, label)
+            if rep % 6 == 1:
+                # plain Python floats (doubles, as a rule not exact in single precision) wherever the structure allows F8
+                tree2, _, plain2, expected2 = build(ast, cat, rng, stats, prefer="F8")
+                if plain2 is not None and "F8" in gen.describe(tree2):
+                    ctx.count("oracle.plain_double_roundtrip")
+                    _plain_case(ctx, cls, SF, plain2, expected2, label)
             if rep == 0 and i < 3:
                 ctx.sample({"function": label, "tree": gen.describe(tree), "body": e5ref.encode(tree)[:40]})
     ctx.count("alternatives.covered", len(stats))
